@@ -75,6 +75,31 @@ static std::string snap(const upa::url& u) {
     return s.str();
 }
 
+// "no memory is corrupted": whatever a non-atomic operation managed to do before the failure, the stored
+// representation must be well formed (offsets ascending and inside the string, zeros only for never-started
+// trailing parts) and every getter must return a view inside the serialization
+static std::string consistent(const upa::url& u) {
+    const std::string& norm = access::norm(u);
+    const std::size_t n = norm.size();
+    std::size_t prev = 0;
+    bool zeros = false;
+    for (int i = 0; i < upa::url::PART_COUNT; ++i) {
+        const std::size_t e = access::part_end(u, i);
+        if (e == 0 && (i > 0 || n == 0)) { zeros = true; continue; }
+        if (zeros && e != 0) return "offset table: part " + std::to_string(i) + " started after a never-started part";
+        if (e < prev) return "offset table: part " + std::to_string(i) + " ends at " + std::to_string(e) + " before its predecessor " + std::to_string(prev);
+        if (e > n) return "offset table: part " + std::to_string(i) + " ends at " + std::to_string(e) + " beyond the string (" + std::to_string(n) + ")";
+        prev = e;
+    }
+    const upa::string_view views[] = { u.href(), u.protocol(), u.username(), u.password(), u.host(), u.hostname(), u.port(), u.path(), u.pathname(), u.search(), u.hash() };
+    int k = 0;
+    for (const auto& v : views) {
+        if (v.size() && (v.data() < norm.data() || v.data() + v.size() > norm.data() + n)) return "getter " + std::to_string(k) + " returns a view outside the serialization";
+        ++k;
+    }
+    return "";
+}
+
 // every object must remain usable with correct results
 static std::string usable(upa::url& u) {
     try {
@@ -144,6 +169,15 @@ int main(int argc, char** argv) {
         ops.push_back({ "origin " + a.substr(0, 20), false, both(a, a, false, false), [](upa::url& x, upa::url&) { (void)x.origin(); } });
         ops.push_back({ "path_from_file_url " + a.substr(0, 20), false, both(a, a, false, false), [](upa::url& x, upa::url&) { try { (void)upa::path_from_file_url(x, upa::file_path_format::windows); } catch (const upa::url_error&) {} } });
     }
+    for (const std::string a : { "http://example.org/", "non-spec://h/p?q#f", "https://h:8/p" }) {
+        ops.push_back({ "username on credential-less " + a, false, both(a, a, false, false), [=](upa::url& x, upa::url&) { x.username(big); } });
+        ops.push_back({ "password on credential-less " + a, false, both(a, a, true, false), [=](upa::url& x, upa::url&) { x.password(big); } });
+        ops.push_back({ "port on port-less " + a, false, both(a, a, false, false), [=](upa::url& x, upa::url&) { x.port("12345"); } });
+    }
+    for (const std::string a : { "foo:/p", "foo:/.//p?q", "foo:/a/b#f" }) {
+        ops.push_back({ "host on host-less " + a, false, both(a, a, false, false), [=](upa::url& x, upa::url&) { x.host(big); } });
+        ops.push_back({ "pathname //x on host-less " + a, false, both(a, a, false, false), [=](upa::url& x, upa::url&) { x.pathname("//" + big); } });
+    }
     ops.push_back({ "url_host", false, both("a:b", "a:b", false, false), [=](upa::url&, upa::url&) { try { upa::url_host h(big + ".b\xC3\xBC" "cher.de"); (void)h.to_string(); } catch (const upa::url_error&) {} } });
     ops.push_back({ "percent_encode/decode", false, both("a:b", "a:b", false, false), [=](upa::url&, upa::url&) { (void)upa::percent_decode(upa::percent_encode(big + " \xC3\xA4%", upa::component_no_encode_set)); (void)upa::encode_url_component(u"\u00e4 b"); } });
     ops.push_back({ "url_from_file_path", false, both("a:b", "a:b", false, false), [=](upa::url&, upa::url&) { try { (void)upa::url_from_file_path("/" + big + "/x y", upa::file_path_format::posix); (void)upa::url_from_file_path("C:\\" + big, upa::file_path_format::windows); } catch (const upa::url_error&) {} } });
@@ -175,6 +209,8 @@ int main(int argc, char** argv) {
             if (threw && !fired) problem = "exception without injected failure: " + outcome;
             if (problem.empty() && threw && op.atomic && snap(*x) != before) problem = "target changed although the operation did not complete";
             if (problem.empty() && x->is_valid() && access::has_params(*x) && access::owner(access::params(*x)) != x) problem = "params owner wrong";
+            if (problem.empty()) { const std::string c1 = consistent(*x); if (!c1.empty()) problem = "target corrupted: " + c1; }
+            if (problem.empty()) { const std::string c2 = consistent(*y); if (!c2.empty()) problem = "source corrupted: " + c2; }
             if (problem.empty()) { const std::string u1 = usable(*x); if (!u1.empty()) problem = "target unusable: " + u1; }
             if (problem.empty()) { const std::string u2 = usable(*y); if (!u2.empty()) problem = "source unusable: " + u2; }
             delete x; delete y;
